@@ -565,6 +565,25 @@ def run(world, rep, tier, only=None):
         rep.ob("C12.p", site(tmain, "%s#%d comes after the undo manager was offered" % (nm, k_p[nm])), tmain.dominated_by(c_, ut),
                "every path to %s (line %d) passes the test of undo_file / io_ptr_orig that leads to tune2fs_setup_tdb()" % (nm, c_.line))
 
+    # ------------------------------------------------------------------ C12.q e2undo looks at the device at one offset only
+    # e2undo replays onto a channel it has told the offset (io_channel_set_options(channel, "offset=…")).  When it
+    # opens the device a second time - to mark the restored file system as needing a check - the same option string
+    # goes along; without it the mark lands in whatever file system sits at offset 0, a byte no undo record covers.
+    eu = world.program("e2undo")
+    eum = eu.fn("main", "misc/e2undo.c")
+    seto = calls_to(eum, "io_channel_set_options")
+    reop = calls_to(eum, "ext2fs_open2", "ext2fs_open")
+    rep.floor("C12.q offset option handed to the replay channel in e2undo main", len(seto), 1)
+    optv = set()
+    for c_ in seto:
+        optv |= T.vars_in(arg(c_, 1) or {})
+    for i, c_ in enumerate(reop):
+        got = T.vars_in(arg(c_, 1) or {})
+        rep.ob("C12.q", site(eum, "second open of the device carries the replay's offset#%d" % i), bool(optv & got),
+               "ext2fs_open2(device, %s, …) (line %d) is given the option string of io_channel_set_options(): %s" %
+               (T.pp(arg(c_, 1))[:40], c_.line, sorted(optv)))
+    rep.floor("C12.q opens of the device as a file system in e2undo main", len(reop), 1)
+
     # ------------------------------------------------------------------ C12.n a run that wrote nothing leaves a well-formed undo file
     # The header's block size is filled in by undo_setup_tdb(), which runs before the first block is saved.  A run
     # that changes nothing never gets there; undo_close() therefore runs it before it writes the header, or e2undo and
